@@ -867,6 +867,29 @@ func Siblings(s string) []string {
 	return out
 }
 
+// Stems returns inputs that stand to s as the steps of building it up or cutting it down: s with a letter appended, s
+// without its first letter, the first half of s and s without its last letter - in that order, so that a caller that
+// runs them before the judged call ends with a string of which s is the one-letter extension (primer design grows a
+// candidate base by base; a reader of a growing file re-parses ever longer texts).
+func Stems(s string) []string {
+	if len(s) < 2 {
+		return nil
+	}
+	return []string{s + s[:1], s[1:], s[:len(s)/2], s[:len(s)-1]}
+}
+
+// Spoil returns relatives of s that a function with a restricted alphabet has to reject, but only after it has looked
+// at part of them: bad in place of the middle letter, bad appended, bad in front. Run before the judged call with the
+// results discarded: a call that ends in an error must leave nothing behind for the next one.
+func Spoil(s string, bad byte) []string {
+	b := string([]byte{bad})
+	if len(s) == 0 {
+		return []string{b}
+	}
+	m := len(s) / 2
+	return []string{s[:m] + b + s[m+1:], b + s, s + b}
+}
+
 // Scribble overwrites a buffer that was handed to the code under test: what that code returned must not change.
 func Scribble(b []byte) {
 	for i := range b {
